@@ -58,6 +58,11 @@ def zid_insertion_problem(a: str, b: str) -> tuple[Optional[str], dict]:
     if a.endswith("\r") != b.endswith("\r"):
         return "line-ending-changed", info
     a, b = a.rstrip("\r"), b.rstrip("\r")
+    if re.fullmatch(r"[-ox~<>]  *", a) or re.fullmatch(r"[ox~<>] P\d +", a):
+        # the first line carries only the prefix: the ZID simply follows it
+        info["zid"] = (b.split() or [""])[-1]
+        ok = b.split()[:-1] == a.split() and bool(_ZID_TOKEN.search(b))
+        return (None if ok else "zid-insertion-altered-line"), info
     m = _ZID_TOKEN.search(b)
     if not m:
         return "changed-line-has-no-zid", info
